@@ -92,35 +92,6 @@ func idxCore() {
 
 func checkApply(doc *JV, ops []Op) { checkApplyOpts(doc, ops, 0) }
 
-// escapedSize: length of the compact rendering of v with <, >, & spelled as \u00XX when escape is on
-// (plain-ASCII strings and names only: the generators produce nothing else).
-func escapedSize(v *JV, escape bool) int {
-	n := len(render(v))
-	extra := 0
-	var walk func(x *JV)
-	count := func(b []byte) {
-		for _, c := range b {
-			extra += 5 * vx.B2I(vx.Or(vx.Or(c == '<', c == '>'), c == '&'))
-		}
-	}
-	walk = func(x *JV) {
-		if x.K == JStr {
-			count(x.Lit)
-		}
-		for _, k := range x.Keys {
-			count(k)
-		}
-		for _, k := range x.Kids {
-			walk(k)
-		}
-	}
-	walk(v)
-	if escape {
-		return n + extra
-	}
-	return n
-}
-
 // option bits of optmask: 1 AllowMissingPathOnRemove, 2 EnsurePathExistsOnAdd, 4 EscapeHTML, 8 AccumulatedCopySizeLimit symbolic
 // (SupportNegativeIndices is always symbolic). Options not selected keep the library defaults.
 func checkApplyOpts(doc *JV, ops []Op, optmask int) {
@@ -215,9 +186,8 @@ func checkApplyOpts(doc *JV, ops []Op, optmask int) {
 	vx.Reach("apply/end")
 }
 
-func H_Apply() { applyCore() }
+func H_Apply()     { applyCore() }
 func H_Apply_Idx() { idxCore() }
-
 
 // H_AllowMissing_Meta (C13), both sides real code: P with AllowMissingPathOnRemove on must have the outcome of
 // P minus the skipped removes with the option off. The reference evaluator only classifies which removes are skippable.
